@@ -13,6 +13,7 @@ import (
 	"flag"
 	"fmt"
 	"os"
+	"os/exec"
 	"path/filepath"
 	"strings"
 )
@@ -24,14 +25,21 @@ var ownedFiles = []string{"components.go", "handler.go", "router.go", "spec_file
 const specWithComponents = `{"openapi":"3.0.3","info":{"title":"t","version":"1"},"paths":{"/pets/{id}":{"get":{"parameters":[{"in":"path","name":"id","required":true,"schema":{"type":"string"}}],"responses":{"200":{"description":"ok","content":{"application/json":{"schema":{"$ref":"#/components/schemas/Pet"}}}},"default":{"description":"d"}}}}},"components":{"schemas":{"Pet":{"type":"object","required":["name"],"properties":{"name":{"type":"string"},"tag":{"type":"string"}}}}}}`
 const specNoComponents = `{"openapi":"3.0.3","info":{"title":"t","version":"1"},"paths":{"/ping":{"get":{"responses":{"default":{"description":"d"}}}}}}`
 
+// a spec without any operation (a shared type library): only components.go has content of its own
+const specNoOperations = `{"openapi":"3.0.3","info":{"title":"t","version":"1"},"paths":{},"components":{"schemas":{"Pet":{"type":"object","required":["name"],"properties":{"name":{"type":"string"},"tag":{"type":"string"}}}}}}`
+
 type dirInv struct {
-	Spec   int // 0 with components, 1 without
+	Spec   int // 0 with components, 1 without, 2 without operations
 	Client bool
 	API    bool
+	DNE    bool // --donotedit
 }
 
 func (i dirInv) tag() int {
-	t := i.Spec * 4
+	t := i.Spec * 8
+	if i.DNE {
+		t += 4
+	}
 	if i.Client {
 		t += 2
 	}
@@ -51,11 +59,8 @@ func hashFile(p string) string {
 }
 
 func runInv(work, dir string, inv dirInv) error {
-	spec := specWithComponents
-	if inv.Spec == 1 {
-		spec = specNoComponents
-	}
-	r := runGoagDir(work, dir, fmt.Sprintf("dirspec%d", inv.Spec), []byte(spec), inv.Client, !inv.API)
+	spec := []string{specWithComponents, specNoComponents, specNoOperations}[inv.Spec]
+	r := runGoagDir(work, dir, fmt.Sprintf("dirspec%d", inv.Spec), []byte(spec), inv.Client, !inv.API, inv.DNE)
 	if r.Outcome != "ok" {
 		return fmt.Errorf("goag %s: %s", r.Outcome, firstLine(r.Detail))
 	}
@@ -70,23 +75,48 @@ func facetDir(args []string) error {
 	work := fs.String("work", "", "scratch dir")
 	shard := fs.Int("shard", 0, "shard index")
 	nshards := fs.Int("nshards", 1, "number of shards")
+	one := fs.Int("one", -1, "internal: run this single invocation into -out and exit")
 	fs.Parse(args)
 	rng := NewPRNG(*seed)
 
 	var invs []dirInv
-	for s := 0; s < 2; s++ {
-		for _, c := range []bool{false, true} {
-			for _, a := range []bool{false, true} {
-				invs = append(invs, dirInv{s, c, a})
+	for s := 0; s < 3; s++ {
+		for _, e := range []bool{true, false} {
+			for _, c := range []bool{false, true} {
+				for _, a := range []bool{false, true} {
+					invs = append(invs, dirInv{s, c, a, e})
+				}
 			}
 		}
 	}
-	// fresh generation of every invocation into an empty directory
+	if *one >= 0 {
+		// internal: one invocation, twice, into -out, in this fresh process
+		for _, inv := range invs {
+			if inv.tag() == *one {
+				if err := runInv(*work, *out, inv); err != nil {
+					return err
+				}
+				return nil
+			}
+		}
+		return fmt.Errorf("no such invocation %d", *one)
+	}
+	// what a single run of every invocation produces in an empty directory: generated in a FRESH
+	// PROCESS each, so that nothing an earlier run left in this process can leak into the reference
+	self, _ := os.Executable()
 	fresh := map[int]map[string]string{}
 	hasComp := map[int]bool{}
 	for _, inv := range invs {
 		d := filepath.Join(*work, fmt.Sprintf("fresh%d", inv.tag()))
-		if err := runInv(*work, d, inv); err != nil {
+		sub := func() error {
+			cmd := exec.Command(self, "dir", "-one", fmt.Sprint(inv.tag()), "-out", d, "-work", filepath.Join(*work, fmt.Sprintf("freshw%d", inv.tag())))
+			cmd.Env = os.Environ()
+			if o, err := cmd.CombinedOutput(); err != nil {
+				return fmt.Errorf("fresh-process run of invocation %d: %v: %s", inv.tag(), err, tail(string(o), 400))
+			}
+			return nil
+		}
+		if err := sub(); err != nil {
 			return err
 		}
 		m := map[string]string{}
@@ -94,7 +124,7 @@ func facetDir(args []string) error {
 			m[f] = hashFile(filepath.Join(d, f))
 		}
 		// a second run into the same directory must reproduce it (re-run changes nothing)
-		if err := runInv(*work, d, inv); err != nil {
+		if err := sub(); err != nil {
 			return err
 		}
 		for _, f := range ownedFiles {
@@ -153,7 +183,14 @@ func facetDir(args []string) error {
 			rec(append(prefix, inv), n-1)
 		}
 	}
-	rec(nil, 3)
+	rec(nil, 2)
+	n3 := 1200
+	if *tier == "thorough" {
+		n3 = 12000
+	}
+	for i := 0; i < n3; i++ {
+		cases = append(cases, dcase{fmt.Sprintf("d3-%d", i), "------", []dirInv{Pick(rng, invs), Pick(rng, invs), Pick(rng, invs)}, "history-3"})
+	}
 	// 3. random longer histories from random initial states
 	nr := 60
 	if *tier == "thorough" {
